@@ -1,5 +1,7 @@
 (* Property C08 — New reproduces its input or rejects it; Select/Drop/Slice/Copy project exactly. *)
 From QF Require Import Base.Prelude Model.Bits Model.Frame Model.Filter Model.Ops Model.TableSpec Proofs.BitsProofs Proofs.OpsProofs.
+From QF Require Import Proofs.OpsProofs2 Proofs.NewProofs.
+From Coq Require Import Sorted.
 Local Open Scope N_scope.
 
 (* strings.Pointer packing (every string cell of a frame is addressed through it): the accessors read back
@@ -57,4 +59,160 @@ Print Assumptions C08_select.
 Example C08_slice_example :
   let f := mkFrame [([65%N], ICol [10; 20; 30; 40]%Z); ([66%N], SCol [None; Some []; Some [97]; None])] [3; 1; 0; 2]%nat false in
   abs (slice f 1 3) = Ok (mkTable [[65%N]; [66%N]] [TInt; TString] [[CInt 20; CStr (Some [])]; [CInt 10; CStr None]]%Z).
+Proof. vm_compute. reflexivity. Qed.
+
+(* ================================================================== wave 2 *)
+Local Open Scope nat_scope.
+
+(* ------------------------------------------------------------------ Drop *)
+
+(* Drop(names) on a frame with distinct column names returns exactly the physical columns whose name is not
+   listed, in their original order, over the unchanged row index; when nothing is left, the frame without columns
+   and rows; Drop() is the frame itself. *)
+Theorem C08_drop f names :
+  ferr f = false -> NoDup (col_names f) ->
+  let rest := filter (fun nc => negb (existsb (bytes_eqb (fst nc)) names)) (cols f) in
+  drop f names = match names, rest with
+                 | [], _ => f
+                 | _, [] => mkFrame [] [] false
+                 | _, _ => mkFrame rest (ix f) false
+                 end.
+Proof. exact (drop_spec f names). Qed.
+Print Assumptions C08_drop.
+
+(* Drop never sets Err: a listed name that is not a column is IGNORED (the statement's "unknown requests are
+   rejected" does not hold for Drop; this is the behaviour of the implementation, see the report). *)
+Theorem C08_drop_never_rejects f names : ferr f = false -> ferr (drop f names) = false.
+Proof. exact (drop_no_err f names). Qed.
+Print Assumptions C08_drop_never_rejects.
+
+Example C08_drop_example :
+  let f := mkFrame [([65%N], ICol [10; 20; 30]%Z); ([66%N], BCol [true; false; true]); ([67%N], ICol [1; 2; 3]%Z)] [2; 0] false in
+  NoDup (col_names f)
+  /\ drop f [[66%N]; [90%N]] = mkFrame [([65%N], ICol [10; 20; 30]%Z); ([67%N], ICol [1; 2; 3]%Z)] [2; 0] false
+  /\ drop f [[67%N]; [65%N]; [66%N]] = mkFrame [] [] false.
+Proof.
+  cbv zeta. split; [|split; vm_compute; reflexivity].
+  simpl. repeat constructor; simpl; intuition discriminate.
+Qed.
+
+(* ------------------------------------------------------------------ New *)
+
+(* createColumn: whatever it returns holds exactly the supplied values (null pointers as null, every byte of every
+   string, constants repeated count times), is an enum column only for string data with an Enums entry, and
+   presupposes a supported type and a count >= 0. *)
+Theorem C08_create_column_holds d en c :
+  create_column d en = Ok c ->
+  data_ok d = true /\ col_wf c = true
+  /\ (is_ecol c = true -> is_string_data d = true /\ en <> None)
+  /\ exists cells, data_cells d (is_ecol c) = Some (col_type c, cells) /\ holds c cells.
+Proof. exact (create_column_holds d en c). Qed.
+Print Assumptions C08_create_column_holds.
+
+(* ... and without an Enums entry it succeeds EXACTLY for the supported types with a non-negative count
+   (with an entry the enum factory may also refuse: undeclared value, more than 255 values — property C17) *)
+Theorem C08_create_column_plain d :
+  exists r, create_column d None = r /\ (data_ok d = true <-> exists c, r = Ok c) /\ r <> Panic.
+Proof. exact (create_column_plain d). Qed.
+Print Assumptions C08_create_column_plain.
+
+(* New(data, ColumnOrder(order), Enums(enums)), for every input whose effective column order (the given one, or
+   the sorted keys) has no repeated name:
+
+   new_valid (Proofs/NewProofs.v, executable) =
+        every key is a legal name
+     && the order has as many names as there are keys && every name of the order is a key
+        (C08_new_order_permutation: together = the order is a permutation of the keys)
+     && createColumn succeeds for every column (supported type, count >= 0, enum factory accepts the values)
+        and every column has the length of the FIRST column in order (a first column of length 0 followed by
+        longer ones is invalid)
+     && every Enums entry names a column of the order that holds string data.
+
+   VALID: New returns a frame without Err that is well formed, has the row index 0..n-1 (n = length of the first
+   column), and denotes the table whose column names are the order and whose column n holds exactly the cells
+   of data[n] — as enum column iff n is string data declared in Enums. *)
+Theorem C08_new_ok data order enums :
+  NoDup (new_order data order) -> new_valid data order enums = true ->
+  exists f t, new_frame data order enums = Ok f /\ ferr f = false /\ wf_frame f = true
+    /\ ix f = seq 0 (new_len data order enums) /\ abs f = Ok t
+    /\ tnames t = new_order data order /\ length (trows t) = new_len data order enums
+    /\ forall n, In n (new_order data order) ->
+         exists d tc, assocb n data = Some d /\ data_ok d = true
+           /\ data_cells d (has_enum data enums n) = Some tc /\ tcolumn t n = Some tc
+           /\ length (snd tc) = new_len data order enums.
+Proof. exact (new_frame_table data order enums). Qed.
+Print Assumptions C08_new_ok.
+
+(* INVALID: Err (the frame without columns), never a frame, never a panic. Together with C08_new_ok:
+   New returns a frame without Err IF AND ONLY IF the input is valid. *)
+Theorem C08_new_rejects data order enums :
+  NoDup (new_order data order) -> new_valid data order enums = false ->
+  new_frame data order enums = Ok (mkFrame [] [] true).
+Proof. exact (new_frame_rejects data order enums). Qed.
+Print Assumptions C08_new_rejects.
+
+Theorem C08_new_iff data order enums :
+  NoDup (new_order data order) ->
+  (new_valid data order enums = true <-> exists f, new_frame data order enums = Ok f /\ ferr f = false).
+Proof.
+  intro Hnd. split.
+  - intro Hv. destruct (new_frame_table data order enums Hnd Hv) as [f [t [H1 [H2 _]]]]. exists f. auto.
+  - intros [f [Hf He]]. destruct (new_valid data order enums) eqn:Hv; [reflexivity|].
+    rewrite (new_frame_rejects data order enums Hnd Hv) in Hf. inversion Hf; subst. discriminate.
+Qed.
+Print Assumptions C08_new_iff.
+
+(* without ColumnOrder: byte-wise alphabetical order, every key exactly once; and the premise of the theorems
+   above holds because the keys of a Go map are distinct *)
+Theorem C08_default_order_sorted (l : list bytes) : Sorted names_le (sort_names l) /\ Permutation (sort_names l) l.
+Proof. exact (sort_names_sorted l). Qed.
+Print Assumptions C08_default_order_sorted.
+
+Theorem C08_default_order_nodup (data : list (bytes * newdata)) : NoDup (map fst data) -> NoDup (new_order data []).
+Proof. exact (new_order_default_nodup data). Qed.
+Print Assumptions C08_default_order_nodup.
+
+Theorem C08_new_order_permutation (data : list (bytes * newdata)) order :
+  NoDup (new_order data order) ->
+  length (new_order data order) = length data ->
+  forallb (fun n => match assocb n data with Some _ => true | None => false end) (new_order data order) = true ->
+  Permutation (new_order data order) (map fst data).
+Proof. exact (new_order_permutation data order). Qed.
+Print Assumptions C08_new_order_permutation.
+
+(* Non-vacuity: a null pointer, an empty string, a constant and an enum column declared without values, default
+   order; and the inputs that must be rejected — among them the empty FIRST column followed by a longer one, in
+   both orders. *)
+Definition ex_new_data : list (bytes * newdata) :=
+  [([66%N], DStrPtrs [None; Some []; Some [97%N]]); ([65%N], DConstInt 7 3); ([69%N], DStrings [[120%N]; [121%N]; [120%N]])].
+Definition ex_new_bad : list (bytes * newdata) := [([65%N], DInts []); ([66%N], DInts [1; 2; 3]%Z)].
+
+Example C08_new_premises_satisfiable :
+  NoDup (new_order ex_new_data []) /\ new_valid ex_new_data [] [([69%N], [])] = true
+  /\ new_frame ex_new_data [] [([69%N], [])]
+     = Ok (mkFrame [([65%N], ICol [7; 7; 7]%Z); ([66%N], SCol [None; Some []; Some [97%N]]);
+                    ([69%N], ECol [0; 1; 0]%N [[120%N]; [121%N]] false)] [0; 1; 2] false).
+Proof.
+  split; [|split; vm_compute; reflexivity].
+  apply C08_default_order_nodup. simpl. repeat constructor; simpl; intuition discriminate.
+Qed.
+
+Example C08_new_invalid_examples :
+  new_valid ex_new_bad [] [] = false                              (* first column empty, second longer *)
+  /\ new_valid ex_new_bad [[66%N]; [65%N]] [] = false             (* the same columns in the other order *)
+  /\ new_valid ex_new_data [] [([70%N], [])] = false              (* Enums entry for an unknown column *)
+  /\ new_valid ex_new_data [] [([65%N], [])] = false              (* Enums entry for a non-string column *)
+  /\ new_valid ex_new_data [[66%N]; [65%N]] [] = false            (* ColumnOrder too short *)
+  /\ new_valid ex_new_data [[66%N]; [65%N]; [70%N]] [] = false    (* ColumnOrder with an unknown name *)
+  /\ new_valid [([36%N; 65%N], DInts [])] [] [] = false           (* illegal name *)
+  /\ new_valid [([65%N], DConstInt 1 (-1))] [] [] = false         (* negative count *)
+  /\ new_valid [([65%N], DOther)] [] [] = false.                  (* unsupported data type *)
+Proof. repeat split; vm_compute; reflexivity. Qed.
+
+(* NOT covered by the theorems above (premise NoDup): a ColumnOrder that repeats a name and has as many entries as
+   there are keys passes both checks of New; the repeated column appears twice and another key is silently left out,
+   its length never compared (model and implementation agree on this; see the report). *)
+Example C08_new_repeated_order_accepted :
+  new_frame [([65%N], DInts [1]%Z); ([66%N], DInts [1; 2; 3]%Z)] [[65%N]; [65%N]] []
+  = Ok (mkFrame [([65%N], ICol [1]%Z); ([65%N], ICol [1]%Z)] [0] false).
 Proof. vm_compute. reflexivity. Qed.
